@@ -1,7 +1,8 @@
 (* C13 — store-rewriting commands are idempotent; a clean check changes nothing. *)
 Require Import Base Extracted Criteria Search AuditGraph DepGraph Resolve Update Commands.
 Require Import Witness.
-Require Import CriteriaProofs UpdateProofs UpdateKeep EndToEnd CheckFixpoint CheckTwice.
+Require Import WrittenForm.
+Require Import CriteriaProofs UpdateProofs UpdateKeep EndToEnd CheckFixpoint CheckTwice WrittenFormProofs.
 Local Open Scope N_scope.
 
 (* a settled store (nothing in it is a fresh import — the state right after any
@@ -51,6 +52,11 @@ Example C13_second_check_nonvacuous :
    andb (match cmd_check false w_graph w_store_exempted with Some _ => true | None => false end)
         (match cmd_check false w_graph s1 with Some _ => true | None => false end)) = true.
 Proof. vm_compute. reflexivity. Qed.
+
+(* the written form has an executable test, which is evaluated on the store files every successful real `cargo vet`
+   of a history leaves behind (they must pass it) *)
+Theorem C13_written_form_test_is_sound : forall t ps, written_formb t ps = true -> written_form t ps.
+Proof. exact written_formb_ok. Qed.
 
 (* a --locked check does not apply any update at all *)
 Theorem C13_locked_check_writes_the_store_it_read : forall inp s s',
@@ -106,6 +112,7 @@ Qed.
 Print Assumptions C13_check_update_leaves_settled_store.
 Print Assumptions C13_check_on_a_written_store_writes_it_back.
 Print Assumptions C13_second_check_writes_the_same_store.
+Print Assumptions C13_written_form_test_is_sound.
 Print Assumptions C13_locked_check_writes_the_store_it_read.
 Print Assumptions C13_written_lists_are_canonical.
 Print Assumptions C13_check_keeps_exemption_meaning.
